@@ -3,7 +3,7 @@ CONSTANTS
  Confs <- ShapeConfsOn
  MaxCloses = 2
  MaxOps = 1
- NormKeys = TRUE
+ KeyMode = "clean"
  Eager = TRUE
 SPECIFICATION Spec
 INVARIANTS TypeOK LocksNonNeg LocksExact MarkIsReach FallbackPresent CopyKeeps
